@@ -124,6 +124,8 @@ func rangeOf(lb *labels.Builder) []labels.Label {
 type tables struct {
 	match, find, expand, replAll, md5, lower, upper, valid []string
 	seen                                                    map[string]bool
+	class                                                   string // partition class of a replace application
+
 }
 
 func (t *tables) once(k string) bool {
@@ -187,6 +189,7 @@ func tabulate(r ruleSpec, lb *labels.Builder) *tables {
 		idx := re.FindStringSubmatchIndex(val)
 		if idx == nil {
 			t.find = append(t.find, gallina.Pair(gallina.Str(val), "None"))
+			t.class = "replace-no-match"
 			break
 		}
 		t.find = append(t.find, gallina.Pair(gallina.Str(val), gallina.Some(zlist(idx))))
@@ -197,8 +200,21 @@ func tabulate(r ruleSpec, lb *labels.Builder) *tables {
 			}
 			return res
 		}
-		addValid(exp(r.Target))
-		exp(r.Repl)
+		tgt := exp(r.Target)
+		addValid(tgt)
+		res := exp(r.Repl)
+		switch {
+		case val == "" && r.DefaultRe && !strings.Contains(r.Target, "$") && !strings.Contains(r.Repl, "$"):
+			t.class = "replace-fast-path"
+		case !r.scheme().IsValidLabelName(tgt):
+			t.class = "replace-invalid-target"
+		case res == "":
+			t.class = "replace-delete"
+		case strings.Contains(r.Target, "$"):
+			t.class = "replace-template-target"
+		default:
+			t.class = "replace-set"
+		}
 	case "lowercase":
 		t.lower = append(t.lower, gallina.Pair(gallina.Str(val), gallina.Str(strings.ToLower(val))))
 	case "uppercase":
@@ -308,6 +324,8 @@ func genRule(r *gen.Rand) ruleSpec {
 				if r.Chance(1, 2) {
 					rs.Src = nil // fast path candidates
 				}
+			} else if r.Chance(1, 2) {
+				rs.Regex = gen.Pick(r, []string{"(.*)", ".*", "([^;]*);?(.*)", "(.)(.*)", "(?P<name>[a-zA-Z_]*)(.*)", "(.*?);?(.*)"})
 			} else {
 				rs.Regex = gen.Pick(r, rePool)
 			}
@@ -344,7 +362,7 @@ func main() {
 	f := gallina.ParseFlags()
 	meta := gallina.NewMeta("C38", f.Seed, f.Tier)
 	meta.Rule = "corpus of fixed chains + seeded random (label set, chain of 1..6 Validate()-accepted rules over all eleven actions; hashmod with modulus 0 as the only malformed rule); every rule applied singly through relabel.ProcessBuilder on one builder; non-trivial = at least one rule application changed the label set, dropped it or panicked; distinct by (base, rules)"
-	cf := &gallina.CaseFile{Dir: f.Out, Type: "case", PerShard: 150,
+	cf := &gallina.CaseFile{Dir: f.Out, Type: "case", PerShard: 60,
 		Preamble: "From Coq Require Import List ZArith NArith.\nFrom Verif Require Import model.Relabel corr.CorrC38.\nImport ListNotations.\nOpen Scope Z_scope.\n",
 		Footer:   gallina.StdFooter}
 	id := 0
@@ -405,8 +423,8 @@ func main() {
 			} else {
 				meta.Hit("noop-step")
 			}
-			if rs.Action == "replace" && rs.DefaultRe && len(pre) >= 0 && !strings.Contains(rs.Target, "$") && !strings.Contains(rs.Repl, "$") {
-				meta.Hit("replace-fast-path-candidate")
+			if tab.class != "" {
+				meta.Hit(tab.class)
 			}
 			prev = now
 			steps = append(steps, "mkStep "+rs.gallina()+" "+tab.term()+" "+obs)
@@ -481,7 +499,7 @@ func main() {
 	emit(nil, nil, "empty")
 
 	// ---- seeded random chains
-	n := f.Count(700, 40000)
+	n := f.Count(350, 20000)
 	for i := 0; i < n; i++ {
 		r := gen.Fork(f.Seed, i)
 		base := genBase(r)
